@@ -150,6 +150,8 @@ def derived_from_used_parent(spec, lo=1, how='slice'):
     looked up by name, then columns lo.. are taken with a slice (`how='slice'`) or a position list.  sub_spec describes
     exactly the selected channels, so models computed from it stay valid."""
     D = len(spec['widths'])
+    if how in ('perm', 'permname'):
+        return _derived_by_permutation(spec, lo, how)
     parent = dict(spec)
     extra_names = ['XP%d-A' % i for i in range(lo)]
 
@@ -179,6 +181,29 @@ def derived_from_used_parent(spec, lo=1, how='slice'):
         d.resolution(nm)
     sub = d[:, lo:] if how == 'slice' else d[:, list(range(lo, lo + D))]
     return sub
+
+
+def _derived_by_permutation(spec, lo, how):
+    """The parent holds the same channels rotated by `lo`; a full-length list (positions, or names for
+    'permname') puts them back in the order of `spec`.  Nothing is dropped: only the order changes."""
+    D = len(spec['widths'])
+    src = [(i + lo) % D for i in range(D)]            # parent column i holds spec column src[i]
+    parent = dict(spec)
+    names = list(spec.get('names') or ['P%d' % (i + 1) for i in range(D)])
+    parent['names'] = [names[j] for j in src]
+    for key in ('widths', 'ranges', 'pne', 'png', 'pnv', 'pns', 'col_kind', 'vmax'):
+        v = spec.get(key)
+        if isinstance(v, (list, tuple)) and len(v) == D:
+            parent[key] = [v[j] for j in src]
+    cells = spec['events'] if spec.get('events') is not None else expand(spec)
+    parent['events'] = [[r[j] for j in src] for r in cells]
+    parent.pop('specials', None)
+    d = build(parent)
+    for nm in d.channels:
+        d[:0, nm]
+        d.range(nm)
+    back = [src.index(j) for j in range(D)]
+    return d[:, back] if how == 'perm' else d[:, [names[j] for j in range(D)]]
 
 
 # --------------------------------------------------------------------------------------------------
